@@ -34,6 +34,14 @@ def ops_for(declared, flavour):
                 out.append(("S %s=%s" % (y, x), [ex(asg(var(y), var(x)))], []))
                 out.append(("E %s#=%s" % (y, x), [ex(asg(idx(var(y), k1), var(x)))], []))
                 out.append(("SL %s=[%s]" % (y, x), [ex(asg(var(y), lit))], []))
+        # assignment through the 首项 / 末项 setters of a list stores a copy too
+        if flavour == "list":
+            for y in declared:
+                if x != y:
+                    # (guarded: what the setters do on an EMPTY list is not demanded)
+                    out.append(("F %s.first=%s" % (y, x), [if_([bin_("gt", mem(var(y), "@len"), num(0))], [[ex(asg(mem(var(y), "@first"), var(x)))]])], []))
+                    out.append(("F %s.last=%s" % (y, x), [if_([bin_("gt", mem(var(y), "@len"), num(0))], [[ex(asg(mem(var(y), "@last"), var(x)))]])], []))
+            out.append(("F %s.last=[%s]" % (x, x), [if_([bin_("gt", mem(var(x), "@len"), num(0))], [[ex(asg(mem(var(x), "@last"), lst(var(x))))]])], []))
         # a collection handed to a storing method (后增 / 写入) is copied in, like an element assignment
         for y in declared:
             if x != y:
@@ -203,7 +211,7 @@ def run(ctx):
     cov = dict(traces_validated_against_impl=stats["programs"] - stats["skipped"], samples=samples,
                evaluations=stats["programs"], distinct_nontrivial=len(set(p["tag"] for p in progs)),
                rule="copy/mutate histories over names A..D starting from a nested list or a dictionary of lists: steps = declare-copy, multi-declare, assign, the same three with a literal that mentions a variable or with the result of a storing method (which yields its receiver / the stored value), "
-                    "element/key assignment of a collection, 5 mutations through any name at nesting 1-2 (index/key assignment, 后增, 左移, 写入, 移除), "
+                    "element/key assignment of a collection, assignment through the 首项 / 末项 setters, 5 mutations through any name at nesting 1-2 (index/key assignment, 后增, 左移, 写入, 移除), "
                     "mutation through a 遍历 loop variable; every variable is displayed after every step. Exhaustive for <= %d steps, seeded random for 3-5 "
                     "steps; plus object sharing / default-copy / literal-freshness programs, NUMBER elements (9 copy routes x which side is changed by 自增 / 自减 x 3 element mixes), and one collection mentioned several times in a literal and then copied. The ZnEval heap machine (deep copy on bind, reference "
                     "objects; invariant FreshVars in every state) predicts every displayed snapshot" % ex_len, **stats)
